@@ -17,7 +17,7 @@ pub fn spec() -> Spec {
     Spec {
         prop: "C08",
         level: "exploration",
-        rule: "Pool reference model written from the statement (per signer: next nonce, waiting map nonce -> (payload, arrival block)); after every brc20_transact and every finalise the receipts (count, consecutive indexes, nonces, sender), txpool_contentFrom and eth_getTransactionCount are compared with the model; at the end the executed nonces of every signer must be 0,1,2,... each once. Exhaustive small scope: all arrival orders of nonces {0..k-1} of a fresh signer x all gap patterns from {same block,+1,+9,+10,+11} (k=3 quick, k=4 thorough) plus duplicate / replacement / stale / far-future / wrong-chain / undecodable variants; random beyond (3 signers, nonces to 15, interleaved inscription transactions, reorgs, clearCaches). After an expired entry is dropped the model admits both 'later entries kept' and 'later entries dropped'. Window runs: a signer parks the whole admissible window (or all but one / all but the last / a random subset) in shuffled order over one to three blocks while a second signer interferes, then the predecessor arrives. Non-trivial = script in which >=1 transaction was parked and later drained or expired; distinct by (arrival order, gaps, variant).",
+        rule: "Pool reference model written from the statement (per signer: next nonce, waiting map nonce -> (payload, arrival block)); after every brc20_transact and every finalise the receipts (count, consecutive indexes, nonces, sender), txpool_contentFrom and eth_getTransactionCount are compared with the model; at the end the executed nonces of every signer must be 0,1,2,... each once. Exhaustive small scope: all arrival orders of nonces {0..k-1} of a fresh signer x all gap patterns from {same block,+1,+9,+10,+11} (k=3 quick, k=4 thorough) plus duplicate / replacement / stale / far-future / wrong-chain / undecodable variants; random beyond (3 signers, nonces to 15, interleaved inscription transactions, reorgs, clearCaches). After an expired entry is dropped the model admits both 'later entries kept' and 'later entries dropped'. Window runs: a signer parks the whole admissible window (or all but one / all but the last / a random subset) in shuffled order over one to three blocks while a second signer interferes, then the predecessor arrives. Restart/expiry runs: entries parked and committed, then a restart / clearCaches / nothing, then only empty blocks with the pool compared at every height until the entries have expired. Non-trivial = script in which >=1 transaction was parked and later drained or expired; distinct by (arrival order, gaps, variant).",
         assumptions: vec!["inscription_byte_len >= raw length, so every signed transaction at the right nonce is valid and consumes its nonce".into()],
         exhaustive: false,
         min_nontrivial: 2,
@@ -470,7 +470,7 @@ fn random_run(ctx: &WorkerCtx, rep: &mut WorkerReport, net: &str, case_seed: u64
     let steps = if ctx.thorough() { 160 } else { 70 };
     let mut parked = 0u64;
     for _ in 0..steps {
-        let ok = match rng.weighted(&[40, 12, 10, 6, 3, 3, 4]) {
+        let ok = match rng.weighted(&[40, 12, 10, 6, 3, 3, 6]) {
             0 => {
                 let s = rng.pick(&signers).clone();
                 let next = run.model.signers.get(&s.addr).map(|m| m.next).unwrap_or(0);
@@ -546,16 +546,17 @@ fn random_run(ctx: &WorkerCtx, rep: &mut WorkerReport, net: &str, case_seed: u64
                 }
             }
             _ => {
-                // clearCaches: back to the last commit (also mid-block)
-                let r = run.d.exec(Op::Clear);
+                // clearCaches or a restart: back to the last commit (also mid-block)
+                let restart = rng.chance(1, 2);
+                let r = run.d.exec(if restart { Op::Reopen } else { Op::Clear });
                 if r.is_ok() {
                     run.model = run.committed_model.clone();
                     run.blk = None;
                     let hh = run.d.height;
                     run.snapshots.retain(|k, _| *k <= hh);
                     run.snapshots.insert(hh, run.model.clone());
-                    run.script.push("clearCaches".into());
-                    signers.iter().all(|s| run.compare_pool(rep, s, "after clearCaches"))
+                    run.script.push(if restart { "restart".into() } else { "clearCaches".into() });
+                    signers.iter().all(|s| run.compare_pool(rep, s, if restart { "after a restart" } else { "after clearCaches" }))
                 } else {
                     true
                 }
@@ -641,6 +642,69 @@ fn window_run(ctx: &WorkerCtx, rep: &mut WorkerReport, net: &str, case_seed: u64
     drop_driver(run.d);
 }
 
+/// Waiting transactions across a restart: parked and committed, the process restarts (or the caches
+/// are cleared), and then nothing but empty blocks follows until the entries are due to expire. The
+/// pool shown must follow the model at every step, whatever the new process did or did not do before.
+fn restart_expiry_run(ctx: &WorkerCtx, rep: &mut WorkerReport, net: &str, case_seed: u64) {
+    let mut rng = Rng::new(case_seed);
+    let Some(mut run) = Run::new(ctx, net) else { return };
+    let signers: Vec<Signer> = (0..2).map(|i| signer_from(case_seed.wrapping_mul(977) + 3 + i)).collect();
+    run.script = vec![format!("restart/expiry run seed {}", case_seed)];
+    let rounds = if ctx.thorough() { 5 } else { 2 };
+    for _ in 0..rounds {
+        let mut ok = true;
+        // park a few future nonces, possibly over two blocks
+        for s in &signers {
+            let next = run.model.signers.get(&s.addr).map(|m| m.next).unwrap_or(0);
+            for k in 0..rng.range(1, 3) {
+                ok = ok && run.transact(rep, s, next + 1 + k + rng.below(3), "plain");
+            }
+            if rng.chance(1, 3) {
+                ok = ok && run.finalise(rep, &signers);
+            }
+        }
+        ok = ok && run.finalise(rep, &signers);
+        if ok && rng.chance(1, 2) {
+            ok = run.skip(rep, rng.range(1, 4), &signers);
+        }
+        if !ok {
+            break;
+        }
+        // commit, then restart / clearCaches / nothing
+        run.d.exec(Op::Commit);
+        run.committed_model = run.model.clone();
+        run.script.push("commit".into());
+        let what = rng.below(3);
+        if what < 2 {
+            let r = run.d.exec(if what == 0 { Op::Reopen } else { Op::Clear });
+            if !r.is_ok() {
+                rep.inconclusive(format!("restart failed: {}", r.short()));
+                break;
+            }
+            run.model = run.committed_model.clone();
+            run.blk = None;
+            let hh = run.d.height;
+            run.snapshots.retain(|k, _| *k <= hh);
+            run.script.push(if what == 0 { "restart".into() } else { "clearCaches".into() });
+            ok = signers.iter().all(|s| run.compare_pool(rep, s, "right after the restart"));
+        }
+        // only empty blocks until everything has expired: one by one, so that the pool is compared
+        // at every height (the entries leave exactly ten blocks after they were parked)
+        let mut left = 12;
+        while ok && left > 0 {
+            let n = if rng.chance(1, 4) { rng.range(2, 5).min(left) } else { 1 };
+            ok = run.skip(rep, n, &signers);
+            left -= n;
+        }
+        if !ok {
+            break;
+        }
+        rep.nontrivial(format!("restart-expiry:{}", ["restart", "clearCaches", "same-process"][what as usize]));
+        rep.count("restart_expiry_rounds", 1);
+    }
+    drop_driver(run.d);
+}
+
 pub fn worker(ctx: &WorkerCtx) -> WorkerReport {
     let (net, traces) = net_for_shard(ctx.shard);
     crate::setup_env(net, traces);
@@ -654,6 +718,10 @@ pub fn worker(ctx: &WorkerCtx) -> WorkerReport {
     for _ in 0..(if ctx.thorough() { 6 } else { 1 }) {
         let cs = rng.next();
         window_run(ctx, &mut rep, net, cs);
+    }
+    for _ in 0..(if ctx.thorough() { 4 } else { 1 }) {
+        let cs = rng.next();
+        restart_expiry_run(ctx, &mut rep, net, cs);
     }
     rep
 }
